@@ -34,6 +34,8 @@ func main() {
 	case "c13":
 		if *mode == "bam" {
 			c13.RunBAM(*out)
+		} else if *mode == "bamcuts" {
+			c13.RunBAMCuts(*out)
 		} else {
 			c13.Run(*out)
 		}
